@@ -363,6 +363,15 @@ func c10AllImports(r *an.Run) {
 	}
 	msg := il.CoversAll(act, an.ReturnsFailure)
 	r.Check(msg == "" && il.Start == 0 && il.Step == 1, short(f)+"|covers-all", act.Pos(), "every import of the '-' side must match; the loop is left early only with a false verdict %s", msg)
+	// … and success is reported only after that loop: every return that may answer true lies behind the
+	// loop's regular exit (no "nothing to check" shortcut in front of it that depends on anything but the
+	// guard list itself being empty — an empty list leaves the loop at once anyway)
+	vidx, _ := an.VerdictIndex(f.Signature)
+	exit := il.If.Block().Succs[1]
+	for _, ret := range an.PossiblyTrueReturns(f, vidx) {
+		good := ret.Block() == exit || exit.Dominates(ret.Block())
+		r.Check(good, short(f)+"|success-only-after-all-guards", ret.Pos(), "the import guards are reported as satisfied only after every one of them was evaluated (no success return that bypasses the loop)")
+	}
 	n := an.OkDiscipline(r, f)
 	r.Count("import sub-match sites", n)
 	r.Min("import sub-match sites", 1)
